@@ -50,6 +50,9 @@ def shards(tier, seed):
             out.append({"kind": "refine_tri", "nt": 0, "dims": list(dims), "nodes": ns})
     for n, nz in (((1, 2), (2, 2)) if tier == "quick" else ((1, 2), (2, 2), (1, 3), (2, 3))):
         out.append({"kind": "extrude1d", "n": n, "nz": nz})
+    # 1-d grids whose faces are not numbered like their nodes (fracture grids split at intersections)
+    out.append({"kind": "extrude1d", "n": 2, "nz": 2, "face_perm": [0, 2, 1]})
+    out.append({"kind": "extrude1d", "n": 2, "nz": 2, "face_perm": [2, 0, 1]})
     for nz in (2, 3, 4):
         out.append({"kind": "extrude0d", "nz": nz})
     return out
@@ -66,7 +69,7 @@ def configure(cfg, tier):
     cfg.max_paths = 80
 
 
-def _numbered_line_grid(positions, node_perm=None, cell_perm=None):
+def _numbered_line_grid(positions, node_perm=None, cell_perm=None, face_perm=None):
     """1-d grid on the x-axis whose nodes / cells are numbered in the given order (position k gets
     node number node_perm[k]; the cell between positions k and k+1 gets number cell_perm[k])."""
     import porepy as pp
@@ -75,13 +78,20 @@ def _numbered_line_grid(positions, node_perm=None, cell_perm=None):
     n = len(positions) - 1
     node_perm = list(range(n + 1)) if node_perm is None else list(node_perm)
     cell_perm = list(range(n)) if cell_perm is None else list(cell_perm)
+    # the face at position k has number face_perm[k] (default: the number of its node)
+    face_perm = list(node_perm) if face_perm is None else list(face_perm)
     rows, cols, data = [], [], []
     for k in range(n):
-        rows += [node_perm[k], node_perm[k + 1]]
+        rows += [face_perm[k], face_perm[k + 1]]
         cols += [cell_perm[k], cell_perm[k]]
         data += [-1, 1]
-    cf = sps_.csc_matrix((data, (rows, cols)), shape=(n + 1, n))
-    fn = sps_.identity(n + 1, format="csc")
+    # compressed storage given directly, columns in cell order, the face with sign -1 listed first (as the
+    # grids of the library do; nothing sorts the indices)
+    order = np.argsort(np.array(cols[::2]), kind="stable")
+    ind = np.array([[rows[2 * k], rows[2 * k + 1]] for k in order]).ravel()
+    cf = sps_.csc_matrix((np.tile([-1, 1], n), ind, np.arange(0, 2 * n + 1, 2)), shape=(n + 1, n))
+    fn = sps_.csc_matrix((np.ones(n + 1, dtype=bool), ([node_perm[k] for k in range(n + 1)],
+                                                       [face_perm[k] for k in range(n + 1)])), shape=(n + 1, n + 1))
     nodes = np.zeros((3, n + 1))
     for k in range(n + 1):
         nodes[0, node_perm[k]] = float(k)
@@ -89,18 +99,18 @@ def _numbered_line_grid(positions, node_perm=None, cell_perm=None):
     return g, node_perm, cell_perm
 
 
-def _line_grid(ctx, n, tag="x", node_perm=None, cell_perm=None):
+def _line_grid(ctx, n, tag="x", node_perm=None, cell_perm=None, face_perm=None):
     import porepy as pp
 
     xs = [ctx.real(f"{tag}{i}", -4, 8) for i in range(n + 1)]
     for a, b in zip(xs, xs[1:]):
         ctx.assume(lift(b) - lift(a) >= rv(MINLEN))
     ctx.assume(lift(xs[-1]) - lift(xs[0]) >= rv(0.25))
-    if node_perm is None and cell_perm is None:
+    if node_perm is None and cell_perm is None and face_perm is None:
         g = pp.TensorGrid(np.arange(n + 1, dtype=float))
         node_perm = list(range(n + 1))
     else:
-        g, node_perm, cell_perm = _numbered_line_grid(list(range(n + 1)), node_perm, cell_perm)
+        g, node_perm, cell_perm = _numbered_line_grid(list(range(n + 1)), node_perm, cell_perm, face_perm)
     N = np.empty((3, n + 1), dtype=object)
     N.fill(SReal(rv(0)))
     for k, x in enumerate(xs):
@@ -248,7 +258,7 @@ def harness(ctx, shard):
                     det = (p1[0] - p0[0]) * (q[1] - p0[1]) - (p1[1] - p0[1]) * (q[0] - p0[0])
                     ctx.check("child-centre-inside-parent", det > 0, case)
     elif kind == "extrude1d":
-        g, xs = _line_grid(ctx, shard["n"])
+        g, xs = _line_grid(ctx, shard["n"], face_perm=shard.get("face_perm"))
         inputs["x"] = xs
         nz = shard["nz"]
         zs = [SReal(rv(0))] + [ctx.real(f"z{i}", 0, 4) for i in range(1, nz + 1)]
@@ -325,8 +335,9 @@ def replay_case(case):
     problems = []
     if kind in ("refine1d", "remesh1d", "extrude1d"):
         x = np.array(case["x"], dtype=float)
-        if shard.get("node_perm") is not None:
-            g, node_perm, _ = _numbered_line_grid(list(range(x.size)), shard["node_perm"], shard["cell_perm"])
+        if shard.get("node_perm") is not None or shard.get("face_perm") is not None:
+            g, node_perm, _ = _numbered_line_grid(list(range(x.size)), shard.get("node_perm"), shard.get("cell_perm"),
+                                                  shard.get("face_perm"))
             for k in range(x.size):
                 g.nodes[0, node_perm[k]] = x[k]
         else:
